@@ -513,12 +513,16 @@ func (h *pkH) exec(line string) string {
 			}
 		}
 		return res
-	case "send":
+	case "send", "sendblk":
 		a, _ := h.addr(f[1])
 		ci := idxTok(f[2])
 		c := h.chans[ci]
 		amt, _ := math.NewIntFromString(m["amt"])
-		msg := transfertypes.NewMsgTransfer(pkPort, c.Hub, sdk.Coin{Denom: h.denomTok(m["den"]), Amount: amt}, a.String(), "rollapp-side-receiver", clienttypes.NewHeight(1, 1000000), 0, "")
+		rcv := "rollapp-side-receiver"
+		if f[0] == "sendblk" {
+			rcv = h.blocked.String() // the counterparty-side receiver happens to be the bech32 of a blocked hub account
+		}
+		msg := transfertypes.NewMsgTransfer(pkPort, c.Hub, sdk.Coin{Denom: h.denomTok(m["den"]), Amount: amt}, a.String(), rcv, clienttypes.NewHeight(1, 1000000), 0, "")
 		res, err := fx.Deliver(msg)
 		if err != nil {
 			return "err"
